@@ -139,7 +139,7 @@ def main():
         ],
         "checks": [],
         "not_applicable": list(NOT_APPLICABLE),
-        "notes": "All checks: ./check <id> --tier quick|thorough; exit 0 clean, 1 with 'VIOLATION property=<id> replay=<path>', 2 HARNESS-ERROR (no verdict). Replays: ./check <id> --replay <path>. Known findings: known_findings.json. tools/determinism.py, tools/mutants.py and tools/seeded.py (238 independently seeded changes under seeded/) are the self-validation tools.",
+        "notes": "All checks: ./check <id> --tier quick|thorough; exit 0 clean, 1 with 'VIOLATION property=<id> replay=<path>', 2 HARNESS-ERROR (no verdict). Replays: ./check <id> --replay <path>. Known findings: known_findings.json. tools/determinism.py, tools/mutants.py and tools/seeded.py (250 independently seeded changes under seeded/) are the self-validation tools.",
     }
     all_ids = ["C%02d" % i for i in range(1, 20)]
     for pid in all_ids:
